@@ -322,7 +322,7 @@ pub fn fault(a: &Args, rep: &mut Report) {
         let size = if miri { *hr.pick(&[3usize, 9, 17]) } else { *hr.pick(&[1usize, 3, 7, 14, 20, 29, 30, 45, 60, 100, 130, 250]) };
         let state = hr.below(7);
         let mode = if size <= 30 { *hr.pick(&[HMode::Good, HMode::SameTag, HMode::Const, HMode::Identity, HMode::LowEntropy]) } else { *hr.pick(&[HMode::Good, HMode::SameTag, HMode::Identity]) };
-        let cfg = Cfg { elem: ElemKind::TrHeap, bh: Bh::new(mode, hr.below(3)), cap: usize::MAX, check_every: 1, cursor_every: 1, focus: "C07" };
+        let cfg = Cfg { elem: ElemKind::TrHeap, bh: Bh::new(mode, hr.below(3)), cap: usize::MAX, check_every: 1, cursor_every: 1, focus: "C07", ledger_only: false };
         // build the state once to learn the prefix
         let mut s: Sess<T, T> = Sess::new(&cfg);
         let mut next = 1000u64;
